@@ -19,7 +19,7 @@
   `pickle.loads (pickle.dumps v) = v` (a saved value is represented by the canonical text of the live value).
   `str.isidentifier` is modelled for ASCII names only.
 
-  `Cfg` selects between the code as it is and the two proposed repairs (fixes/C17-D7.diff, fixes/C17-D29.diff);
+  `Cfg` selects between the code as it is and the two proposed repairs (fixes/C17-D7.diff, fixes/C17-D2.diff);
   the harness probes the tree under test and passes the flags, so the correspondence check follows the tree.
 -/
 import Pfb.Basic
@@ -100,7 +100,7 @@ inductive Exc where
 /-- Which tree is modelled: the code as found (`false`, `false`) or with the proposed repairs. -/
 structure Cfg where
   d7fixed : Bool := false      -- an include list that validated to empty retains nothing
-  d29fixed : Bool := false     -- a suppressed `__context__` is not followed
+  d2fixed : Bool := false     -- a suppressed `__context__` is not followed
 deriving Repr, DecidableEq
 
 /-- `_get_all_frames_from_exception_obj`: per exception the frames bottom-first, then
@@ -112,7 +112,7 @@ def allFrames (cfg : Cfg) : Exc → List Frame
        | some c => allFrames cfg c
        | none =>
          match context with
-         | some x => if cfg.d29fixed && suppress then [] else allFrames cfg x
+         | some x => if cfg.d2fixed && suppress then [] else allFrames cfg x
          | none => [])
 
 /-! ## Errors -/
@@ -228,11 +228,20 @@ def dedupGo : List Nat → List (Nat × Frame) → List (Nat × Frame)
     if seen.contains f.fid then dedupGo seen rest
     else (k, f) :: dedupGo (f.fid :: seen) rest
 
-def keyLe (a b : Nat × Frame) : Bool := a.1 ≤ b.1
+/-- stable insertion by key -/
+def insertKey (x : Nat × Frame) : List (Nat × Frame) → List (Nat × Frame)
+  | [] => [x]
+  | y :: ys => if x.1 ≤ y.1 then x :: y :: ys else y :: insertKey x ys
+
+/-- `sorted(l, key=lambda f: f[0])`: a stable sort by key (written as an insertion sort so that the kernel
+    can evaluate it on the concrete witnesses) -/
+def sortKeys : List (Nat × Frame) → List (Nat × Frame)
+  | [] => []
+  | x :: xs => insertKey x (sortKeys xs)
 
 /-- `sorted(filtered_frames, key=lambda f: f[0])` then the uniqueness loop -/
 def sortDedup (l : List (Nat × Frame)) : List (Nat × Frame) :=
-  dedupGo [] (l.mergeSort keyLe)
+  dedupGo [] (sortKeys l)
 
 def absDiff (a b : Nat) : Nat := if a ≤ b then b - a else a - b
 
@@ -488,6 +497,13 @@ def getMetadata (d : Data) (field : Str) (idx : Idx) : Except RErr RVal :=
 def pick (vars : List Str) (saved : List (Str × Str)) : List (Str × Str) :=
   (vars.eraseDups).filterMap fun v => (lookup v saved).map fun x => (v, x)
 
+/-- per saved frame (in file order) the queried variables it holds; frames holding none are left out -/
+def perFrame (vars : List Str) (es : List Entry) : List (Nat × List (Str × Str)) :=
+  es.filterMap fun e =>
+    match pick vars e.vars with
+    | [] => none
+    | l => some (e.key, l)
+
 def getVariables (d : Data) (q : QVars) (idx : Idx) : Except RErr RVal :=
   let parsed : Except RErr (List Str × Bool) :=
     match q with
@@ -502,11 +518,7 @@ def getVariables (d : Data) (q : QVars) (idx : Idx) : Except RErr RVal :=
     if vars.isEmpty then .error .noVars
     else match idx with
       | .none =>
-        let per := d.entries.filterMap fun e =>
-          match pick vars e.vars with
-          | [] => none
-          | l => some (e.key, l)
-        (match per, single with
+        (match perFrame vars d.entries, single with
          | [], _ => .error .notFound
          | [(_, l)], true => match l with | (_, x) :: _ => .ok (.v x) | [] => .error .internal
          | [(_, l)], false => .ok (.d l)
